@@ -150,6 +150,8 @@ class Runner:
             api = RealApi(self.ctx.fb, sb, b, None, None, root=True)
             for t, i in order:
                 res['%d.%d' % (t, i)] = exec_op(api, sc['threads'][t][i], inv)
+            if sc.get('raise_after'):
+                raise UserError('root raises after the operations')
             return 'done'
         try:
             rv = self.FB.build(self.cache, BUILD, root)
@@ -178,6 +180,8 @@ class Runner:
                 tids = [s.spawn(worker, t) for t in range(len(sc['threads']))]
                 s.join(tids)
                 s.active = False
+                if sc.get('raise_after'):
+                    raise UserError('root raises after the operations')
                 return 'done'
             try:
                 box['rv'] = self.FB.build(self.cache, BUILD, root)
